@@ -1,10 +1,10 @@
 package main
 
 import (
-	"go/parser"
-	"go/ast"
 	"encoding/json"
 	"fmt"
+	"go/ast"
+	"go/parser"
 	"go/token"
 	"go/types"
 	"os"
@@ -129,6 +129,7 @@ func (t *gty) Src() string {
 	}
 	return "int"
 }
+
 // SrcPlain renders the type with every defined type replaced by its underlying type (same layout)
 func (t *gty) SrcPlain() string {
 	switch t.Kind {
@@ -553,7 +554,9 @@ func resolveRaw(c gotypes.Component) string {
 	// name and offset of a top-level value, read from the component itself through Resolve on a
 	// pointer-typed copy is not possible; use the exported behaviour: NewComponent keeps addr, and
 	// Base()/Len() etc. derive from it. We read it via a zero-step path on a uintptr view:
-	if cc, ok := c.(interface{ Resolve() (*gotypes.Basic, error) }); ok {
+	if cc, ok := c.(interface {
+		Resolve() (*gotypes.Basic, error)
+	}); ok {
 		if b, err := cc.Resolve(); err == nil {
 			return fmt.Sprintf("(%s, %s)", cStr(b.Addr.Symbol.Name), cZ(int64(b.Addr.Disp)))
 		}
